@@ -23,6 +23,12 @@ def run_one(script: Dict[str, Any], worker: str, seed: int = 0) -> List[Dict[str
     if script.get("pair_workers") and worker == "pair":
         sub = {k: v for k, v in script.items() if k != "pair_workers"}
         return run_one(sub, "asyncio", seed) + [{"e": "variant", "n": 1}] + run_one(sub, "trio", seed)
+    if script.get("earlier_connections"):
+        # connections served by the same worker process before this one (what they leave behind in the
+        # process must not matter); their traces are not part of the execution under test
+        for earlier in script["earlier_connections"]:
+            run_one(earlier, worker, seed)
+        script = {k: v for k, v in script.items() if k != "earlier_connections"}
     from .session import Session
 
     sess = Session(json.loads(json.dumps(script)), worker)
